@@ -95,6 +95,8 @@ def run_auto(t0_ms, interval, start_msg, end_msg, actions, schedule, timeout=5):
             self._target = target
             with ctl.cv:
                 ctl.state["S"] = "running"
+            # a thread that never ends (a spinner that is not stopped) must not keep the worker process alive
+            self.daemon = True
             threading.Thread.start(self)
 
         def join(self, timeout=None):
@@ -141,6 +143,7 @@ def run_auto(t0_ms, interval, start_msg, end_msg, actions, schedule, timeout=5):
             finally:
                 ctl.finished("M")
         m = threading.Thread(target=body)
+        m.daemon = True
         names[m] = "M"
         with ctl.cv:
             ctl.state["M"] = "running"
